@@ -296,17 +296,23 @@ func TestVerif_C07(t *testing.T) {
 			offsets = append(offsets, 180*time.Second+e, 180*time.Second-e, -180*time.Second+e, -180*time.Second-e)
 		}
 		offsets = append(offsets, 180*time.Second, -180*time.Second, 179*time.Second, -179*time.Second, 181*time.Second, -181*time.Second)
+		var instants []time.Time
+		for _, d := range offsets {
+			instants = append(instants, T0.Add(d))
+		}
+		// far outside the window, up to where 64-bit durations saturate or wrap
+		instants = append(instants, T0.Add(24*time.Hour), T0.Add(-24*time.Hour), T0.AddDate(100, 0, 0), T0.AddDate(-100, 0, 0), T0.AddDate(291, 0, 0), T0.AddDate(293, 0, 0),
+			T0.AddDate(300, 0, 0), T0.AddDate(400, 0, 0), T0.AddDate(-300, 0, 0), T0.AddDate(-400, 0, 0), T0.AddDate(585, 0, 0), time.Unix(1<<40, 0), time.Unix(1<<62, 0), time.Unix(1<<63-1, 0), time.Unix(0, 0), time.Unix(-1, 0))
 		vk.InBubble(t, func() {
 			g = newSrvRig(t, srvOpts{})
 			rng := r.Rand("c07w", ti)
-			for _, d := range offsets {
+			for _, cliNow := range instants {
 				if bad != "" {
 					break
 				}
 				c := cliCfg{UID: randUID(rng), Method: "shadowsocks", Enc: "plain", Transport: transport, Browser: "firefox", NumConn: 1, SessionID: 9}
-				// client clock: T0 + d (the bubble's own clock is irrelevant: both clocks are injected)
-				cliNow := T0.Add(d)
-				c.Offset = cliNow.Sub(time.Now())
+				// client clock stuck at cliNow (the bubble's own clock is irrelevant: both clocks are injected)
+				c.AbsNow = &cliNow
 				saved := g.sta.WorldState
 				g.sta.WorldState = common.WorldOfTime(cliNow) // capture under a server clock equal to the client's
 				gp, err := g.capture(c)
@@ -319,11 +325,14 @@ func TestVerif_C07(t *testing.T) {
 				for _, ph := range phases {
 					srvNow := T0.Add(ph)
 					_, _, err := AuthFirstPacket(append([]byte{}, gp.first...), gp.tr, freshState(&g.pv, srvNow))
-					diff := ts*1e9 - srvNow.UnixNano()
-					want := diff > -180e9 && diff < 180e9
+					want, diff := false, int64(0)
+					if ds := ts - srvNow.Unix(); ts >= srvNow.Unix()-200 && ts <= srvNow.Unix()+200 && ds >= -200 && ds <= 200 { // (no overflow near the window)
+						diff = ts*1e9 - srvNow.UnixNano()
+						want = diff > -180e9 && diff < 180e9
+					}
 					checked++
 					if (err == nil) != want {
-						bad = fmt.Sprintf("%s: packet with embedded timestamp %d presented at server time %d.%09d (timestamp - server time = %d ns): accepted=%v, the window -180 s < diff < 180 s says %v (err %v)", transport, ts, srvNow.Unix(), srvNow.Nanosecond(), diff, err == nil, want, err)
+						bad = fmt.Sprintf("%s: packet with embedded timestamp %d presented at server time %d.%09d (timestamp - server time = %d ns, 0 = far outside): accepted=%v, the window -180 s < diff < 180 s says %v (err %v)", transport, ts, srvNow.Unix(), srvNow.Nanosecond(), diff, err == nil, want, err)
 						break
 					}
 				}
